@@ -26,7 +26,7 @@ import (
 const depth = 4
 
 var kinds = []string{"create-then-rename", "create-then-modify", "create-then-delete", "list", "info", "set-comment", "rename", "delete", "move", "move-dest", "new-folder", "alias", "alias-dest", "download", "download-folder",
-	"upload", "upload-folder-target", "upload-folder-items", "new-user", "update-create", "update-rename", "update-delete", "set-user", "delete-user", "alias-then-move", "upload-folder-onto-root"}
+	"upload", "upload-folder-target", "upload-folder-items", "new-user", "update-create", "update-rename", "update-delete", "set-user", "delete-user", "alias-then-move", "upload-folder-onto-root", "upload-folder-target-removed"}
 
 // auditMark, when set (path-audit child), is called right before the hostile request is sent and right after the
 // server is quiescent again, so that a system-call tracer can attribute file accesses to the request.
@@ -37,7 +37,7 @@ var simple *core.Simple
 func init() {
 	simple = &core.Simple{
 		Id: "C07", Lvl: "exploration", Quick: 2100, Thorough: 80000, PerBatch: 350, Width: 175, Timeout: 2400,
-		RuleText: "each case builds a sandbox S/l1/l2/l3/l4/root with uniquely named canary files and directories at every level (including .info_root, .rsrc_root and root.incomplete next to the root, and canaries next to the accounts directory), then — as a client of the server-wide root or, in a third of the cases, of an account with its own file root next to it — sends one file-touching or account request (26 kinds incl. an alias that is made in a sub-folder and then moved up, a folder upload aimed at the root itself while an entry called '.incomplete' lies in it, two-step account sequences on a hostile existing login, the actual transfer for downloads/uploads and folder-upload item headers on the transfer connection) whose name / path items / new name / destination / item header / login carries a hostile component ('..', '.', '/', empty, absolute, a/../../b, NUL, 255-byte and longer, high bytes, more '..' than the sandbox is deep, paths of 257 and 300 items that climb on balance, count/length prefixes that disagree with the data, names aiming at a canary); oracle: the recursive snapshot (names, types, sizes, hashes, link targets) of everything outside the root (outside Users/ for account requests) is unchanged, no link inside the root points outside, and no canary token appears in any reply or transfer byte. distinct = (request kind, hostile class, placement); non-trivial = every case",
+		RuleText: "each case builds a sandbox S/l1/l2/l3/l4/root with uniquely named canary files and directories at every level (including .info_root, .rsrc_root and root.incomplete next to the root, and canaries next to the accounts directory), then — as a client of the server-wide root or, in a third of the cases, of an account with its own file root next to it — sends one file-touching or account request (27 kinds incl. a folder upload whose target is deleted / renamed / moved away by a request between two of its items, an alias that is made in a sub-folder and then moved up, a folder upload aimed at the root itself while an entry called '.incomplete' lies in it, two-step account sequences on a hostile existing login, the actual transfer for downloads/uploads and folder-upload item headers on the transfer connection) whose name / path items / new name / destination / item header / login carries a hostile component ('..', '.', '/', empty, absolute, a/../../b, NUL, 255-byte and longer, high bytes, more '..' than the sandbox is deep, paths of 257 and 300 items that climb on balance, count/length prefixes that disagree with the data, names aiming at a canary); oracle: the recursive snapshot (names, types, sizes, hashes, link targets) of everything outside the root (outside Users/ for account requests) is unchanged, no link inside the root points outside, and no canary token appears in any reply or transfer byte. distinct = (request kind, hostile class, placement); non-trivial = every case",
 		Case:     runCase,
 		Extra: func(tier string, seed int64) []core.Batch {
 			n := 170
@@ -275,6 +275,10 @@ func runCase(c *core.Case) {
 		}
 	}
 	accountZone := false
+	cwdBefore := map[string]bool{}
+	for _, e := range core.CwdCanary() {
+		cwdBefore[e] = true
+	}
 	before := fixture.Snapshot(srv.Dir)
 	var streams [][]byte
 	call := func(typ int, fs ...rc.Field) (rc.Tran, bool) {
@@ -410,6 +414,43 @@ func runCase(c *core.Case) {
 		call(208, rc.FS(201, "escaped-target"), rc.F(202, rc.PathS("dir", "sub")), rc.F(212, rc.Path()))
 		call(200, rc.F(202, rc.PathS("escaped-target")))
 		call(206, rc.FS(201, "x.txt"), rc.F(202, rc.PathS("escaped-target")))
+	case "upload-folder-target-removed":
+		// no hostile bytes: two kinds of operation overlap on one folder. A folder upload into Uploads/Incoming is under
+		// way (one item stored, the transfer waits for the next header) when its target is deleted, renamed or moved away
+		// by a request; the following items (a nested folder, a file in it, a plain file) then arrive for a target that
+		// is gone. Whatever the server makes of them, nothing may appear outside the root (or in the working directory).
+		placement = "overlap"
+		how := core.Pick(r, []string{"delete", "rename", "move", "delete-parent"})
+		h.class = "target-" + how
+		desc = fmt.Sprintf("folder upload into Uploads/Incoming whose target is removed (%s) between two items", how)
+		rep, ok := call(213, rc.FS(201, "Incoming"), rc.F(202, rc.PathS("Uploads")), rc.F(108, rc.U32(50)), rc.F(220, rc.U16(4)))
+		if ref, has := rep.Get(107); ok && rep.Err == 0 && has {
+			remove := func() {
+				switch how {
+				case "delete":
+					call(204, rc.FS(201, "Incoming"), rc.F(202, rc.PathS("Uploads")))
+				case "rename":
+					call(207, rc.FS(201, "Incoming"), rc.F(202, rc.PathS("Uploads")), rc.FS(211, "Renamed"))
+				case "move":
+					call(208, rc.FS(201, "Incoming"), rc.F(202, rc.PathS("Uploads")), rc.F(212, rc.PathS("Docs")))
+				case "delete-parent":
+					call(204, rc.FS(201, "Uploads"))
+				}
+				c.Count("overlap_removals", 1)
+			}
+			items := []xfer.UpItem{
+				{Path: [][]byte{[]byte("first.txt")}, Data: []byte("FOLDER-ITEM-1")},
+				{IsFolder: true, Path: [][]byte{[]byte("second"), []byte("third")}, Before: remove},
+				{Path: [][]byte{[]byte("second"), []byte("third"), []byte("f.txt")}, Data: []byte("FOLDER-ITEM-2")},
+				{Path: [][]byte{[]byte("last.txt")}, Data: []byte("FOLDER-ITEM-3")},
+			}
+			if r.Bool() { // the removal may also fall before the very first item
+				items[0].Before, items[1].Before = remove, nil
+			}
+			_, t, _ := xfer.FolderUpload(srv, "10.7.0.1:2", ref, items)
+			t.Conn.CloseWrite()
+			t.WaitDone(xfer.TransferWatchdog)
+		}
 	case "upload-folder-onto-root":
 		// no hostile bytes in the request: an earlier request left an entry called ".incomplete" (a legal name) in the
 		// root, and a folder upload is aimed at the root itself (spelled as clients may spell it) with an item whose
@@ -499,7 +540,13 @@ func runCase(c *core.Case) {
 	// the worker's working directory starts empty and nothing in the harness writes there: an entry is a file
 	// system effect at a relative path, i.e. outside every root (cases of one worker share it, so the entry may stem
 	// from a neighbouring case; the effect is outside the root whichever request caused it)
-	if stray := core.CwdCanary(); len(stray) > 0 {
+	var stray []string
+	for _, e := range core.CwdCanary() {
+		if !cwdBefore[e] { // what an earlier case of this worker left is that case's violation, not this one's
+			stray = append(stray, e)
+		}
+	}
+	if len(stray) > 0 {
 		if len(stray) > 5 {
 			stray = stray[:5]
 		}
